@@ -292,7 +292,7 @@ func startChild() (*proc, error) {
 	if err != nil {
 		return nil, err
 	}
-	cmd := exec.Command(os.Args[0], "-child", dir)
+	cmd := exec.Command(selfExe(), "-child", dir)
 	cmd.Env = append(os.Environ(), "GOMEMLIMIT=6GiB", "GOTRACEBACK=single")
 	in, _ := cmd.StdinPipe()
 	so, _ := cmd.StdoutPipe()
@@ -390,6 +390,14 @@ func firstPanicLines(s string) string {
 		}
 	}
 	return strings.Join(keep, " | ")
+}
+
+// selfExe: the absolute path of this binary (the parent may have changed directory)
+func selfExe() string {
+	if p, err := os.Executable(); err == nil {
+		return p
+	}
+	return os.Args[0]
 }
 
 func main() {
